@@ -153,7 +153,7 @@ JUDGE_PROP = {
 }
 
 
-DOMINANT = ("having(aggregate_of_group_key)", "having(select_alias_shadows_column)")
+DOMINANT = ("having(aggregate_of_group_key)", "having(select_alias_shadows_column)", "groupby(alias_shadows_merged_join_column)")
 
 
 def col_names(e, acc):
@@ -199,6 +199,15 @@ def features(q):
                     feats.add("having(select_alias_shadows_column)")
                 if not on_key and not shadow:
                     feats.add("having")
+            # GROUP BY <name> where <name> is also the alias of a select item that is not that column, over a FROM whose
+            # NATURAL / USING join merged the column: the name is not found among the input columns and falls to the alias
+            gnames = {g["n"] for g in x["group"] if g.get("k") == "col" and not g.get("q")}
+            shadow_g = any(it["as"] in gnames and not (it["e"].get("k") == "col" and it["e"]["n"] == it["as"]) for it in x["items"])
+
+            def merged(f):
+                return f["k"] == "join" and (f["natural"] or f["using"] or merged(f["l"]) or merged(f["r"]))
+            if shadow_g:
+                feats.add("groupby(alias_shadows_merged_join_column)" if merged(x["from"]) else "groupby(alias_shadows_column)")
             if x["where"]["k"] != "none":
                 feats.add("where")
             names = [it["as"] for it in x["items"]]
@@ -423,13 +432,15 @@ def norm_msg(m):
     return m[:160]
 
 
-def report(pid, tier, t0, level_text_assumptions):
-    """Common tail of C07 / C08 / C14: report this property's failures from the shared engine run."""
+def report(pid, tier, t0, level_text_assumptions, extra=None):
+    """Common tail of C07 / C08 / C14: report this property's failures from the shared engine run.
+    `extra(rep, tier)` may add failures of a second engine and returns its coverage."""
     res = run(tier)
     rep = C.Reporter(pid)
     mine = [f for f in res["failures"] if f["prop"] == pid]
     for f in mine:
         rep.fail(f["key"], f"judge {f['judge']} failed", {"engine": "sql-run", "case": f["sample"]})
+    extra_cov = extra(rep, tier) if extra else None
     code, viol, known = rep.finish()
     sim = res["runs"]
     coverage = {
@@ -449,5 +460,7 @@ def report(pid, tier, t0, level_text_assumptions):
         "known_findings_reproduced": known,
         "checker_cmd": res.get("trace_cmd", ""),
     }
+    if extra_cov is not None:
+        coverage["second_engine"] = extra_cov
     C.write_evidence(pid, tier, "model_checking", coverage, level_text_assumptions, time.time() - t0, viol)
     return code
